@@ -16,6 +16,7 @@ from .. import suite as S
 
 PROP = "C18"
 PROP_V = "theories/props/C18.v"
+MODEL_AREAS = ('front', 'tc', 'run', 'cli')
 NEED_GRITS = True
 
 FILES = {
